@@ -418,7 +418,14 @@ func genReqSpec(r *mon.Rand, fields []fieldSpec) reqSpec {
 				continue
 			}
 			vs := []string{genValue(r, f.kind, si+1)}
-			if r.Chance(12) && s != "json" {
+			if r.Chance(10) && (s == "query" || s == "form") && !f.slice && f.deflt == "" && f.tags["json"] == "" {
+				// a key that is present with an empty value (?k=): the source carries the field,
+				// so lower-priority sources must not be consulted; the empty text converts to ""
+				// for strings and is a conversion error for the other kinds.  (Only the
+				// URL-encoded sources, where presence of an empty value is unambiguous, and only
+				// fields without default / json tag, whose interplay with empty text is murky.)
+				vs = []string{""}
+			} else if r.Chance(12) && s != "json" {
 				// text that does not convert for most kinds (JSON bodies are typed, and an
 				// empty text is indistinguishable from an absent value, so neither is used)
 				vs = []string{r.Str("x", "1.5.2", "99999999999999999999", "tru")}
